@@ -5,7 +5,9 @@ from the repo's source) against the two declarative semantics of Model/C08Sem.le
 -/
 import MxlVerif.Lemmas.C08Roundtrip
 import MxlVerif.Lemmas.C08Compartment
+import MxlVerif.Lemmas.C08RoundtripFrom
 import MxlVerif.Lemmas.C08Total
+import MxlVerif.Model.C17Doc
 namespace Mxl.C08
 open Gen
 
@@ -476,12 +478,37 @@ example : usesRefused (.binop .mod (.name "x") (.name "k")) = true ∧
 
 /-! ### the `compartments` option and the species attributes (findings F-C08-14 / -15 / -16, repaired) -/
 
-/-- `write(model, file, compartments=…)` writes, whatever the option, the components `exportModel` writes:
-    every round-trip theorem above holds for the document of every successful `write`. -/
+/-- `write(model, file, compartments=…)` writes, whatever the option, the components `exportModel` writes when the
+    species references avoid a set of names that contains the model's (the compartment ids are in it since F-C08-19);
+    without the option-dependent names that set is `m.names` and the document is `exportModel m`'s. -/
 theorem C08_write_doc_is_export (m : PyModel) (o : Option (List (String × Rat))) (dc : SDocC)
-    (h : writeModel m o = .ok dc) : exportModel m = .ok dc.doc := by
+    (h : writeModel m o = .ok dc) :
+    ∃ t, (∀ n ∈ m.names, n ∈ t) ∧ exportModelFrom t m = .ok dc.doc ∧ exportModel m = exportModelFrom m.names m := by
   obtain ⟨cs, _, he⟩ := writeModel_ok h
-  exact (exportModelC_doc he).1
+  exact ⟨refTaken m cs, names_sub_refTaken m cs, (exportModelC_doc he).1, rfl⟩
+
+/-- **Every successful `write` round-trips**, whatever the `compartments` option: for a well-named model the document
+    written holds every component under its name, and its SBML reading gives the model's initial values, derived values,
+    fluxes and derivatives at every state (the four round-trip theorems, for `writeModel` instead of `exportModel`). -/
+theorem C08_write_roundtrip (I : Interp) (m : PyModel) (o : Option (List (String × Rat))) (dc : SDocC)
+    (hw : wellNamed m = true) (h : writeModel m o = .ok dc) :
+    (∀ n ∈ m.vars.map (·.1), n ∈ dc.doc.species.map (·.1)) ∧
+    (∀ n v, pyInit I m m.fuel n = some v → docInit I dc.doc dc.doc.fuel n = some v) ∧
+    (∀ st n v, pyValue I m st m.fuel n = some v → docValue I dc.doc st dc.doc.fuel n = some v) ∧
+    (∀ st x v, (∀ n q, st.lookup n = some q → n ∈ m.names) → pyRhs I m st x = some v → docRhs I dc.doc st x = some v) := by
+  obtain ⟨t, hsub, hx, _⟩ := C08_write_doc_is_export m o dc h
+  have hE := exported_of_exportFrom hsub hw hx
+  refine ⟨exported_species_keyFrom hw hx, ?_, ?_, ?_⟩
+  · intro n v hv
+    exact docInit_mono I dc.doc (Nat.le_of_succ_le hE.fuel) n v
+      (init_transfer I hE (fnsFree_of_wellNamed hw) m.fuel n v hv)
+  · intro st n v hv
+    exact docValue_mono I dc.doc st (Nat.le_of_succ_le hE.fuel) n v
+      (value_transfer I hE (fnsFree_of_wellNamed hw) st m.fuel n v hv)
+  · intro st x v hst hv
+    rw [pyRhs_eq] at hv
+    rw [docRhs_eq]
+    exact rhs_list I hE (fnsFree_of_wellNamed hw) st hst x hE.rxns (fun _ h => h) v hv
 
 /-- no dangling compartment (F-C08-15): every species is written, with the compartment of each being one of
     the compartments the file declares; a model with variables has exactly one species entry per species. -/
@@ -535,6 +562,18 @@ example :
     symbolRate false 2 6 = 3 ∧ speciesSymbol false 2 (initialAmountOf false 2 2) = 2 := by
   decide +kernel
 
+/-- composition with the import side (C17's document semantics, run by C17's driver handler): a species with the
+    attributes the exporter writes is read by `symOfAmount` / `amountOfSym` / `symInit` as the plain quantity it was in the
+    model — in every document, whatever the compartments and their sizes -/
+theorem C08_written_species_import_reading (d : Mxl.C17.Doc) (s : Mxl.C17.Species)
+    (hh : s.hosu = speciesHosu) (ha : s.isAmount = speciesInitAmount) :
+    (∀ a : Rat, Mxl.C17.symOfAmount d s a = a ∧ Mxl.C17.amountOfSym d s a = a) ∧ Mxl.C17.symInit d s = s.init := by
+  have h1 : speciesHosu = true := rfl
+  have h2 : speciesInitAmount = true := rfl
+  rw [h1] at hh; rw [h2] at ha
+  refine ⟨fun a => by simp [Mxl.C17.symOfAmount, Mxl.C17.amountOfSym, hh], ?_⟩
+  cases hi : s.init <;> simp [Mxl.C17.symInit, Mxl.C17.symOfAmount, hh, ha, hi]
+
 /-- compartment ids and component names stay apart (F-C08-16): no compartment of a written file is called like a
     parameter, variable, derived quantity or reaction of the model; the default call never fails on that account. -/
 theorem C08_compartment_ids_apart (m : PyModel) (o : Option (List (String × Rat))) (dc : SDocC)
@@ -582,6 +621,10 @@ example : ∃ dc, writeModel clashModel (some [("cell", 4), ("c2", 1)]) = .ok dc
     dc.species.map (·.compartment) = ["cell", "cell"] := by
   refine ⟨_, rfl, ?_⟩; decide +kernel
 example : ∃ err, writeModel clashModel (some [("r1", 4)]) = .error err := ⟨_, rfl⟩
+/-- the former F-C08-19 counterexample: a compartment called `yref`; the references are `yref_` and `yref__` -/
+example : ∃ dc, writeModel clashModel (some [("yref", 5)]) = .ok dc ∧ dc.doc.rules.map (·.1) = ["yref_", "yref__"] ∧
+    docRhs (fun _ _ => none) dc.doc [("x", 2), ("y", 3)] "y" = some 117 := by
+  refine ⟨_, rfl, ?_, ?_⟩ <;> decide +kernel
 
 /-! ### facts about the tables and structural choices read from `_export.py` -/
 
@@ -589,7 +632,7 @@ theorem C08_tables :
     ifexpOrder = [.body, .test, .orelse] ∧ computedSide = .product ∧ negSide = .reactant ∧
     nonnegSide = .product ∧ unknownCallRaises = true ∧ arityChecked = true ∧ logWithBase = true ∧
     iaSetterExists = true ∧ libParents = pyLibs ∧ binaryNumpyOnly = true ∧ bodyFirstReturn = true ∧
-    refFresh = true ∧ refSuffix = "ref" ∧
+    refFresh = true ∧ refSuffix = "ref" ∧ refAvoidsCompartments = true ∧
     exportOrder = [.params, .derivedParams, .vars, .derivedVars, .rxns] ∧
     speciesHosu = true ∧ speciesInitAmount = true ∧ speciesCompartmentLit = none ∧
     defaultCompartmentId = "compartment" ∧ defaultCompartmentSize = 1 ∧ defaultCompartmentFresh = true ∧
